@@ -84,7 +84,6 @@ enum Cmd {
     Cancel(usize),
     Raise(i32),
     Sync,
-    Exit,
 }
 
 struct Controller {
@@ -137,7 +136,7 @@ impl Future for Controller {
                     cx.waker().wake_by_ref();
                     return Poll::Pending;
                 }
-                Ok(Cmd::Exit) | Err(TryRecvError::Disconnected) => return Poll::Ready(()),
+                Err(TryRecvError::Disconnected) => return Poll::Ready(()),
                 Err(TryRecvError::Empty) => return Poll::Pending,
             }
         }
@@ -157,7 +156,6 @@ fn plain_thread(rx: Receiver<Cmd>, tx: Sender<&'static str>) {
                 unsafe { libc::raise(sig) };
                 let _ = tx.send("raised");
             }
-            Cmd::Exit => break,
             _ => {
                 let _ = tx.send("ignored");
             }
@@ -173,6 +171,7 @@ struct Orc {
     raw: Value,
     stepno: usize,
     late: u64,
+    expired: u32,
 }
 
 impl Orc {
@@ -305,6 +304,7 @@ impl Orc {
                         if wait_until(watchdog(), || o.ready.load(Ordering::SeqCst) != 0) {
                             self.late += 1;
                         } else {
+                            self.expired += 1;
                             self.problem(
                                 "contract",
                                 json!({"site": "handler", "kind": "registered_listener_never_completes", "sig": s, "on_home": *on == cs.home[l]}),
@@ -343,6 +343,14 @@ impl Orc {
                     "contract",
                     json!({"site": "listener", "kind": "completed_without_its_signal", "sig": s}),
                     format!("listener task {l} of signal {s} completed although that signal was not raised since it registered"),
+                );
+            }
+            let others = (1..=cs.n).any(|m| cs.sig[m] == cs.sig[l] && cs.st(m) == "pend");
+            if !others && handler_installed(cs.sig[l]) {
+                self.problem(
+                    "contract",
+                    json!({"site": "unregister", "kind": "handler_left_installed_without_listener", "sig": s}),
+                    format!("no listener task is registered for {s} any more but its handler is still installed"),
                 );
             }
             if cs.st(l) == "pend" && !handler_installed(cs.sig[l]) {
@@ -418,12 +426,15 @@ impl Orc {
             }
         }
         self.settle()?;
-        if handler_installed(libc::SIGUSR1) || handler_installed(libc::SIGUSR2) {
-            self.problem(
-                "mismatch",
-                json!({"site": "replay_signal_rt", "act": "cleanup", "fields": ["dp"]}),
-                "a handler is still installed after every listener was dropped".into(),
-            );
+        for (name, sig) in [("a", libc::SIGUSR1), ("b", libc::SIGUSR2)] {
+            if handler_installed(sig) {
+                self.problem(
+                    "contract",
+                    json!({"site": "unregister", "kind": "handler_left_installed_without_listener", "sig": name}),
+                    format!("every listener was dropped but the handler for {name} is still installed: the signal is swallowed from now on"),
+                );
+                unsafe { libc::signal(sig, libc::SIG_DFL) };
+            }
         }
         Ok(())
     }
@@ -459,7 +470,7 @@ fn main() {
         cmd.push(ctx);
         rep.push(rrx);
     }
-    let mut orc = Orc { cmd, rep, wakers, report: Report::new(), raw: Value::Null, stepno: 0, late: 0 };
+    let mut orc = Orc { cmd, rep, wakers, report: Report::new(), raw: Value::Null, stepno: 0, late: 0, expired: 0 };
     let text = std::fs::read_to_string(path).expect("read cases");
     let mut fatal = None;
     let mut done = 0usize;
@@ -481,6 +492,10 @@ fn main() {
             break;
         }
         done = idx + 1;
+        if orc.expired >= 3 {
+            fatal = Some("three watchdog expiries: not waiting for more".into());
+            break;
+        }
         if done % 500 == 0 {
             eprintln!("PROGRESS {done}");
         }
